@@ -14,6 +14,7 @@ func extractAll(repo string, o *out) {
 	extractLink(repo, o)
 	extractAPI(repo, o)
 	extractClient(repo, o)
+	extractProxy(repo, o)
 }
 
 // emit writes  Definition name params : ty := body.  or, when body is empty, the last-known value.
